@@ -98,9 +98,26 @@ def run(ctx: Ctx) -> None:
     ctx.ob("R20.1", "simple:parse_file|encoding handed to CxxParser(encoding=)", isinstance(earg, ast.Name) and earg.id == "encoding",
            msg="parse_file does not pass its encoding on to CxxParser: the file is opened with the default encoding whatever the caller asked for", node=pfc, mod=sm)
     icfg = pm.cfg("__init__")
-    opens = [c for c in walk_local(init) if isinstance(c, ast.Call) and isinstance(c.func, ast.Name) and c.func.id == "open"]
-    ok = len(opens) == 1 and any(k.arg == "encoding" and isinstance(k.value, ast.Name) and k.value.id == "encoding" for k in opens[0].keywords) and opens[0].args and isinstance(opens[0].args[0], ast.Name) and opens[0].args[0].id == "filename"
-    ctx.ob("R20.1", "parser:CxxParser.__init__|open(filename, encoding=encoding)", ok, msg="the file is not opened by the given name with the given encoding", node=opens[0] if opens else init, mod=pm.mod)
+    from ..booleval import UNKNOWN as _U, ev as _ev, paths_to as _pt
+    open_nodes = [n for n in icfg.nodes for c in n.calls() if isinstance(c.func, ast.Name) and c.func.id == "open"]
+    ok = len(open_nodes) == 1
+    why = "expected exactly one open() in CxxParser.__init__"
+    d2: Set[str] = set()
+    if ok:
+        oc = [c for c in open_nodes[0].calls() if isinstance(c.func, ast.Name) and c.func.id == "open"][0]
+        enc = next((k.value for k in oc.keywords if k.arg == "encoding"), None)
+        fn_ok = bool(oc.args) and norm(oc.args[0]) in ("filename", "self.filename")
+        # the codec the file is opened with, for a caller-chosen encoding and for none (constant propagation along the paths)
+        given = set()
+        for env in _pt(icfg, open_nodes[0], {"encoding": "<E>"}, lambda x: None):
+            v = _ev(enc, env, lambda x: None) if enc is not None else None
+            given.add("?" if v is _U else v)
+        for env in _pt(icfg, open_nodes[0], {"encoding": None}, lambda x: None):
+            v = _ev(enc, env, lambda x: None) if enc is not None else None
+            d2.add("?" if v is _U else v)
+        ok = fn_ok and given == {"<E>"}
+        why = f"the file is opened as `{short(oc, 60)}`: with encoding=E the codec used is {sorted(map(str, given))}, not E" if fn_ok else "the file is not opened by the given name"
+    ctx.ob("R20.1", "parser:CxxParser.__init__|open(filename, encoding=encoding)", ok, msg=why, node=open_nodes[0].stmt if open_nodes else init, mod=pm.mod)
 
     def default_literal(fn: ast.FunctionDef) -> Set[str]:
         out = set()
@@ -108,9 +125,9 @@ def run(ctx: Ctx) -> None:
             if isinstance(st, ast.Assign) and any(isinstance(t, ast.Name) and t.id == "encoding" for t in st.targets) and isinstance(st.value, ast.Constant):
                 out.add(st.value.value)
         return out
-    d1, d2 = default_literal(sm.func("parse_file")), default_literal(init)
+    d1 = default_literal(sm.func("parse_file"))
     ctx.ob("R20.1", "simple/parser|default encoding literal agrees", d2 == {"utf-8-sig"} and d1 <= {"utf-8-sig"},
-           msg=f"default encodings: parse_file {sorted(d1)}, CxxParser.__init__ {sorted(d2)}; the documented default is UTF-8 with optional byte-order mark", node=init, mod=pm.mod, nontrivial=False)
+           msg=f"default encodings: parse_file {sorted(d1)}, CxxParser.__init__ {sorted(map(str, d2))}; the documented default is UTF-8 with optional byte-order mark", node=init, mod=pm.mod, nontrivial=False)
     dump = repo.mod("dump")
     dm = dump.func("dumpmain")
     enc_default = "<missing>"
